@@ -46,6 +46,7 @@ const (
 	CertExpired
 	CertAbort
 	CertAltName // valid for "alt.example" only
+	CertBoth    // valid for the domain and for "alt.example"
 )
 
 const (
@@ -93,6 +94,7 @@ const (
 	EnableFailed
 	EnableOther
 	EnableClose
+	EnableFailedEmpty // <failed/> without a condition child
 )
 
 // NegScript is the server's behaviour on one connection.
@@ -511,6 +513,8 @@ func (sc *SrvConn) handle(it *Item) {
 			sc.StanzasSent = 0
 		case EnableFailed:
 			sc.Send(fmt.Sprintf("<failed xmlns='%s'><unexpected-request xmlns='%s'/></failed>", nsSM, nsStanzas))
+		case EnableFailedEmpty:
+			sc.Send(fmt.Sprintf("<failed xmlns='%s'/>", nsSM))
 		case EnableOther:
 			sc.Send("<presence xmlns='jabber:client' from='x@" + sc.S.Domain + "'/>")
 		case EnableClose:
